@@ -114,6 +114,9 @@ func VerifC46IA() {
 	if verif.Param("sep") == 0 && verif.Param("prefix") == 0 {
 		b2, err := ParseIA(ia.String())
 		verif.Assert("ia-string-roundtrip", err == nil && b2 == ia)
+	}
+	if verif.Param("sep") == 0 && verif.Param("prefix") == 0 && verif.Param("bgp") == 1 {
+		// the wrappers around ParseIA/String (same code for both AS classes)
 		txt, err := ia.MarshalText()
 		var b3 IA
 		verif.Assert("ia-text-roundtrip", err == nil && b3.UnmarshalText(txt) == nil && b3 == ia)
